@@ -46,7 +46,7 @@ theorem inv_step (s s' : St) (l : Label) (inv : Inv s) (h : step s l = some s') 
     split at h
     · rename_i hc
       injection h with h; subst h
-      exact inv_rrSkip s r inv hc.1 hc.2.1 hc.2.2.1 hc.2.2.2
+      exact inv_rrSkip s r inv hc.1 hc.2.1 hc.2.2
     · cases h
   | rrExitOk r =>
     simp only [step] at h
